@@ -57,3 +57,5 @@ func vMapOrder(symbolic bool)                          { panic("gosym intrinsic"
 
 func vChdir(dir string)        { panic("gosym intrinsic") } // change the (modelled) working directory
 func vTwoDirs() (string, string) { panic("gosym intrinsic") } // two distinct existing directories
+
+func vUseRealMetaSchemas() { panic("gosym intrinsic") } // decode the embedded meta-schemas for real on this path (default: placeholders)
